@@ -276,26 +276,87 @@ func c12Mirror(c *Ctx) {
 		name := declName(pkg, fd)
 		c.Fn(name)
 		stmts := map[string]token.Pos{}
+		// locals that merely name a field of the receiver (prev := n.before) are read through
+		defs, _ := singleAssignments(pkg.TypesInfo, fd.Body)
+		alias := map[types.Object]ast.Expr{}
+		for o, e := range defs {
+			pure := true
+			ast.Inspect(e, func(n ast.Node) bool {
+				switch n.(type) {
+				case *ast.CallExpr, *ast.CompositeLit, *ast.UnaryExpr, *ast.FuncLit:
+					pure = false
+				}
+				return true
+			})
+			if _, isSel := e.(*ast.SelectorExpr); isSel && pure {
+				alias[o] = e
+			}
+		}
+		var render func(e ast.Expr) string
+		render = func(e ast.Expr) string {
+			switch x := e.(type) {
+			case *ast.Ident:
+				if d, ok := alias[pkg.TypesInfo.ObjectOf(x)]; ok {
+					return render(d)
+				}
+				return x.Name
+			case *ast.SelectorExpr:
+				return render(x.X) + "." + x.Sel.Name
+			case *ast.BinaryExpr:
+				return render(x.X) + " " + x.Op.String() + " " + render(x.Y)
+			case *ast.ParenExpr:
+				return "(" + render(x.X) + ")"
+			case *ast.UnaryExpr:
+				return x.Op.String() + render(x.X)
+			}
+			return exprStr(e)
+		}
+		isAliasDef := func(lhs ast.Expr) bool {
+			id, ok := lhs.(*ast.Ident)
+			if !ok {
+				return false
+			}
+			_, ok = alias[pkg.TypesInfo.ObjectOf(id)]
+			return ok
+		}
 		var collect func(list []ast.Stmt, guard string)
 		collect = func(list []ast.Stmt, guard string) {
 			for _, s := range list {
 				switch x := s.(type) {
 				case *ast.AssignStmt:
 					for i := range x.Lhs {
-						rhs := ""
-						if len(x.Rhs) == len(x.Lhs) {
-							rhs = exprStr(x.Rhs[i])
-						} else if len(x.Rhs) == 1 {
-							rhs = exprStr(x.Rhs[0])
+						if isAliasDef(x.Lhs[i]) {
+							continue
 						}
-						stmts[guard+" => "+exprStr(x.Lhs[i])+" = "+rhs] = x.Pos()
+						var rhsE ast.Expr
+						if len(x.Rhs) == len(x.Lhs) {
+							rhsE = x.Rhs[i]
+						} else if len(x.Rhs) == 1 {
+							rhsE = x.Rhs[0]
+						}
+						// nn := &node{list: n.list, before: n.before, …}: one assignment per field
+						if ue, ok := rhsE.(*ast.UnaryExpr); ok && ue.Op == token.AND {
+							if cl, ok := ue.X.(*ast.CompositeLit); ok {
+								for _, el := range cl.Elts {
+									if kv, ok := el.(*ast.KeyValueExpr); ok {
+										stmts[guard+" => "+render(x.Lhs[i])+"."+exprStr(kv.Key)+" = "+render(kv.Value)] = kv.Pos()
+									}
+								}
+								continue
+							}
+						}
+						rhs := ""
+						if rhsE != nil {
+							rhs = render(rhsE)
+						}
+						stmts[guard+" => "+render(x.Lhs[i])+" = "+rhs] = x.Pos()
 					}
 				case *ast.IfStmt:
-					g := guard + " && " + exprStr(x.Cond)
+					g := guard + " && " + render(x.Cond)
 					collect(x.Body.List, g)
 					if x.Else != nil {
 						if blk, ok := x.Else.(*ast.BlockStmt); ok {
-							collect(blk.List, guard+" && !("+exprStr(x.Cond)+")")
+							collect(blk.List, guard+" && !("+render(x.Cond)+")")
 						}
 					}
 				case *ast.BlockStmt:
